@@ -1,8 +1,8 @@
-import OpcuaVerif.Drv.EncDrv
+import OpcuaVerif.Drv.EncArms
 
-/-! C01 — driver: the shared codec driver (`Drv/EncDrv.lean`). -/
+/-! C01 — driver: the shared codec driver (`Drv/EncDrv.lean`) with arm tags (`Drv/EncArms.lean`). -/
 namespace OpcuaVerif.C01
 
-def driver : OpcuaVerif.Driver := OpcuaVerif.Enc.encDriver
+def driver : OpcuaVerif.Driver := OpcuaVerif.Enc.encDriverA
 
 end OpcuaVerif.C01
